@@ -236,6 +236,98 @@ def run_unit(ex, H, unit, res):
     ex.explore(wrapped, on_end, deadline=unit.get('deadline'))
 
 
+def run_malformed_unit(ex, H, unit, res):
+    """C14 drop-at-layer: arbitrary bytes presented to Udp::demux / Ipv4::demux; a frame whose header fails to decode reaches no
+    application, changes no binding, and the call returns an error instead of panicking"""
+    n = unit['nbytes']
+    layer = unit['layer']
+
+    def body(ex):
+        env = {'protocols': {}, 'apps': [], 'deliveries': []}
+        ex.env = env
+        machine = Agg('Arc', {0: Opaque('machine')})
+        raw = [sym_int(f'raw{i}', 8) for i in range(n)]
+        msg = ex.call('Message::new_inner', [ex.call('Chunk::new', [ListV('Vec', list(raw))])])
+        control = ex.call('Control::new', [])
+        ch = {'c': control}
+        caller = Agg('Arc', {0: Opaque('lower-session')})
+        if layer == 'udp':
+            udp = {'u': ex.call('Udp::new', [])}
+            ip = Agg('Ipv4', {0: MapV('DashMap', []), 1: MapV('HashMap', [])})
+            env['protocols']['Ipv4'] = ip
+            appid = Int(64, 0x1000)
+            env['apps'].append((appid, Agg('AppStub', {0: appid})))
+            # a wildcard binding on a symbolic port, so that well-formed datagrams would be delivered
+            bport = sym_int('bport', 16)
+            ex.call('Udp::listen', [Ref(udp, 'u'), Agg('TypeId', {0: appid}), Agg('Endpoint', {0: ipaddr_of_u32(ex, U32(0)), 1: bport}), clone_val(machine)])
+            iph = H.make('ip', U16(20 + n), U16(0), False, sym_int('ipid', 16), ipaddr_of_u32(ex, sym_int('src', 32)), ipaddr_of_u32(ex, sym_int('dst', 32)), Int(8, 17), sym_int('ttl', 8))
+            ex.call('Control::insert::<Ipv4Header>', [Ref(ch, 'c'), clone_val(iph)])
+            before = len(udp['u'].f[0].items)
+            r = ex.call('<Udp as Protocol>::demux', [Ref(udp, 'u'), msg, caller, ch['c'], clone_val(machine)])
+            after = len(udp['u'].f[0].items)
+            # reference decoder (RFC 768 + this build: checksum field must be 0 because checksums are compiled out)
+            if n >= 8:
+                lenf = ex.binop('BitOr', ex.binop('Shl', ex.cast(raw[4], 'u16', 'IntToInt'), U16(8), False), ex.cast(raw[5], 'u16', 'IntToInt'), False)
+                wellformed = b_and(ex.binop('Eq', lenf, U16(n), False), ex.binop('Eq', raw[6], Int(8, 0), False), ex.binop('Eq', raw[7], Int(8, 0), False))
+            else:
+                wellformed = False
+        else:
+            ip = {'i': Agg('Ipv4', {0: MapV('DashMap', []), 1: MapV('HashMap', [])})}
+            before = 0
+            r = ex.call('<Ipv4 as Protocol>::demux', [Ref(ip, 'i'), msg, caller, ch['c'], clone_val(machine)])
+            after = len(ip['i'].f[0].items)
+            wellformed = False          # nobody listens: every frame must be dropped with an error, decodable or not
+        res['obligations'] += 1
+        dl = env['deliveries']
+        if after != before:
+            raise SpecViolation('c14:malformed-frame-changed-bindings', f'{layer} demux of {n} arbitrary bytes changed the binding table')
+        if dl:
+            okv, m = _valid(ex, wellformed)
+            if not okv:
+                raise SpecViolation('c14:malformed-frame-delivered', f'{layer}: a frame whose header does not decode was delivered to an application', m)
+        if r.variant == 0 and not dl:
+            raise SpecViolation('c14:dropped-frame-without-error', f'{layer}: the frame was dropped but demux reported success')
+        return f'{layer}: {n} arbitrary bytes -> ' + ('delivered (well-formed)' if dl else 'dropped with an error')
+
+    def on_end(ex, kind, r):
+        res['paths'] += 1
+        if kind == 'panic':
+            okk, m = ex.check_sat()
+            vals = {}
+            if m is not None:
+                for d in m.decls():
+                    try:
+                        vals[str(d)] = m[d].as_long()
+                    except Exception:
+                        pass
+            res['violations'].append({'key': f'mirx:udp:c14:panic-in-demux:{layer}', 'desc': f'{layer} demux of {n} arbitrary bytes panics in {r.site}: {r.msg}', 'values': vals, 'unit': res['unit']})
+        elif len(res['samples']) < 3 and r not in res['samples']:
+            res['samples'].append(r)
+
+    def wrapped(ex):
+        try:
+            return body(ex)
+        except SpecViolation as v:
+            m = v.model if v.model is not None else ex.check_sat()[1]
+            vals = {}
+            if m is not None:
+                for d in m.decls():
+                    try:
+                        vals[str(d)] = m[d].as_long()
+                    except Exception:
+                        pass
+            res['violations'].append({'key': f'mirx:udp:{v.role}', 'desc': v.desc, 'values': vals, 'unit': res['unit']})
+            raise PathEnd()
+
+    ex.explore(wrapped, on_end, deadline=unit.get('deadline'))
+
+
+def malformed_units(tier):
+    us = [{'layer': 'udp', 'nbytes': n} for n in ((0, 7, 8, 10) if tier == 'quick' else (0, 1, 4, 7, 8, 9, 12))]
+    us += [{'layer': 'ipv4', 'nbytes': n} for n in ((0, 19, 20, 22) if tier == 'quick' else (0, 1, 10, 19, 20, 21, 24))]
+    return us
+
+
 def units(tier):
     us = []
     for nb in (0, 1, 2, 3):
@@ -259,7 +351,10 @@ def worker(args):
     t0 = time.time()
     u = dict(unit, deadline=t0 + budget)
     try:
-        run_unit(ex, _W['H'], u, res)
+        if 'layer' in unit:
+            run_malformed_unit(ex, _W['H'], u, res)
+        else:
+            run_unit(ex, _W['H'], u, res)
     except Unsupported as e:
         res['unsupported'].append(str(e)[:300])
     except Exception as e:
